@@ -82,7 +82,7 @@ def tt(v, _d=0) -> frozenset:
     if v.kind == "map" and isinstance(v.x, V):
         r |= tt(v.x, _d + 1)
     if v.items:
-        for i in v.items:
+        for i in (v.items.values() if isinstance(v.items, dict) else v.items):
             r |= tt(i, _d + 1)
     return frozenset(r)
 
@@ -103,7 +103,7 @@ def vt(v, _d=0) -> frozenset:
     if v.kind == "map" and isinstance(v.x, V):
         r |= tt(v.x, _d + 1)
     if v.items:
-        for i in v.items:
+        for i in (v.items.values() if isinstance(v.items, dict) else v.items):
             r |= tt(i, _d + 1)
     return frozenset(r)
 
@@ -541,6 +541,22 @@ class TaintInterp:
             g = base.x
             keyname = key.x if key.kind == "const" else "?"
             g.x[keyname] = g.x.get(keyname, E) | tt(v) | kt | pc
+        elif base.kind == "vs" and base.x.items is not None:
+            # ig.vs[KEY] = values: one value per vertex, in vertex order.  The first sequence stored fixes what the vertex
+            # order is (it is the caller's listing of the nodes); later ones are aligned with it iff they list the same way
+            ig = base.x
+            if key.kind != "const" or not isinstance(key.x, str):
+                raise AnalysisError(f"taint interpreter: vertex attribute stored under a key that is not constant at {fi.loc(node)}")
+            if v.kind != "seq":
+                raise AnalysisError(f"taint interpreter: vertex attribute `{key.x}` is filled with something that is not a sequence at {fi.loc(node)}")
+            if "__base__" not in ig.items:
+                ig.items["__base__"] = v
+                ig.oid, ig.ot = v.oid, frozenset(v.ot)
+                ig.items[key.x] = v
+            else:
+                base_ = ig.items["__base__"]
+                aligned = v.oid is not None and v.oid == base_.oid
+                ig.items[key.x] = v if aligned else seq(add(v.elem, v.ot | base_.ot), v.ot, v.oid)
         elif base.kind == "seq":
             nb = seq(join(base.elem, add(v, kt)), base.ot | pc | kt | self.oc(), ("mut", base.oid))
             self.rebind(base_expr, nb, env, fi)
@@ -889,6 +905,13 @@ class TaintInterp:
             g = b.x
             key = k.x if k.kind == "const" else "?"
             return sc(kt | g.x.get(key, E) | b.t)
+        if b.kind == "vs" and b.x.items is not None:        # attribute of an igraph object that was assembled by hand
+            ig = b.x
+            key = k.x if k.kind == "const" else "?"
+            st_ = ig.items.get(key)
+            if st_ is None:
+                raise AnalysisError(f"taint interpreter: vertex attribute `{key}` is read at {fi.loc(e)} but was never stored on this igraph object")
+            return seq(st_.elem, ig.ot, ig.oid)
         if b.kind == "vs":                  # igraph vertex-sequence attribute
             ig = b.x
             g = ig.x
@@ -1283,6 +1306,11 @@ class TaintInterp:
         if q == "igraph.Graph.from_networkx":
             g = a[0]
             return V("igraph", x=g, ot=self.src(ORDER, fi, e, "igraph vertex order = node insertion order"), oid=("iter", g.oid) if g.kind == "graph" else None)
+        if q == "igraph.Graph":
+            # an igraph object assembled by hand: vertex ids are positions 0..n-1; which node sits at which position is what
+            # the caller stores in the vertex attributes (that the edges are given in the same positions is R-BLISS's clause)
+            ig = V("igraph", x=self.graph(), ot=self.src(ORDER, fi, e, "igraph vertex ids = positions chosen by the caller"), oid=None, items={})
+            return ig
         if q == "networkx.density":
             return sc()
         if q in ("collections.deque",):
@@ -1439,8 +1467,8 @@ class TaintInterp:
                 p = a[0] if a else None
                 if p is not None and isinstance(p.x, tuple) and p.x[0] == "perm":
                     # canonical form: vertex order now depends only on what the colours depended on
-                    return V("igraph", x=recv.x, ot=p.x[2], oid=("canon", recv.x.oid if recv.x.kind == "graph" else None))
-                return V("igraph", x=recv.x, ot=recv.ot | (tt(p) if p is not None else E), oid=("perm", id(e)))
+                    return V("igraph", x=recv.x, ot=p.x[2], oid=("canon", recv.x.oid if recv.x.kind == "graph" else None), items=recv.items)
+                return V("igraph", x=recv.x, ot=recv.ot | (tt(p) if p is not None else E), oid=("perm", id(e)), items=recv.items)
             if name in ("vcount", "ecount"):
                 return sc()
         if k == "map":
